@@ -22,7 +22,7 @@ def run_mutant(m):
             p = os.path.join(dst, e['file'])
             s = open(p).read()
             n = s.count(e['old'])
-            if n != e.get('count', 1):
+            if (e.get('count', 1) == -1 and n == 0) or (e.get('count', 1) != -1 and n != e.get('count', 1)):
                 return m, 'STALE', 'pattern occurs %d times in %s (expected %d)' % (n, e['file'], e.get('count', 1))
             s = s.replace(e['old'], e['new'])
             open(p, 'w').write(s)
@@ -33,6 +33,29 @@ def run_mutant(m):
             ok = r.returncode == 0
             return m, 'OK' if ok else 'FALSE-ALARM', '' if ok else out[-600:]
         if r.returncode == 1 and 'VIOLATION property=' + m['property'] in out and ('rule ' + m['rule'] + ' violated') in out:
+            return m, 'OK', ''
+        return m, 'MISSED' if r.returncode == 0 else 'WRONG(%d)' % r.returncode, out[-800:]
+    finally:
+        shutil.rmtree(tmp, ignore_errors=True)
+
+
+def run_seed(d):
+    """a confirmed seeded change (seeded/<id>/patch.diff): the property's check must report a violation"""
+    meta = json.load(open(os.path.join(d, 'meta.json')))
+    m = {'id': 'seeded/' + os.path.basename(d), 'property': meta['property'], 'rule': '(any)'}
+    tmp = tempfile.mkdtemp(prefix='verif_mut_', dir='/tmp')
+    try:
+        dst = os.path.join(tmp, 'repo')
+        subprocess.run(['rsync', '-a', '--exclude', '_build', '--exclude', '.git', REPO + '/', dst + '/'], check=True)
+        r = subprocess.run(['patch', '-p1', '-s', '-d', dst, '-i', os.path.join(d, 'patch.diff')], capture_output=True, text=True)
+        if r.returncode != 0:
+            return m, 'STALE', 'patch does not apply: ' + (r.stdout + r.stderr)[-300:]
+        env = dict(os.environ, BT_REPO=dst, BT_CACHE=os.path.join(tmp, 'cache'), BT_EVIDENCE=os.path.join(tmp, 'evidence'), BT_JOBS='4')
+        r = subprocess.run([os.path.join(VERIF, 'check'), m['property'], '--tier', 'quick'], capture_output=True, text=True, env=env, cwd=VERIF)
+        out = r.stdout + r.stderr
+        if meta.get('expected') == 'not-claimed':
+            return m, 'OK', ''
+        if r.returncode == 1 and 'VIOLATION property=' + m['property'] in out:
             return m, 'OK', ''
         return m, 'MISSED' if r.returncode == 0 else 'WRONG(%d)' % r.returncode, out[-800:]
     finally:
@@ -57,7 +80,15 @@ def main():
             if st != 'OK':
                 bad += 1
                 print('    ' + info.replace('\n', '\n    '))
-    print('%d mutants, %d not as expected' % (len(muts), bad))
+    seeds = sorted(os.path.join(VERIF, 'seeded', x) for x in os.listdir(os.path.join(VERIF, 'seeded'))) if os.path.isdir(os.path.join(VERIF, 'seeded')) and not a.id else []
+    seeds = [d for d in seeds if os.path.exists(os.path.join(d, 'patch.diff')) and (not a.props or json.load(open(os.path.join(d, 'meta.json')))['property'] in a.props)]
+    with ThreadPoolExecutor(max_workers=a.j) as ex:
+        for m, st, info in ex.map(run_seed, seeds):
+            print('%-8s %-4s %-40s %s' % (st, m['property'], m['id'], 'seeded change'))
+            if st != 'OK':
+                bad += 1
+                print('    ' + info.replace('\n', '\n    '))
+    print('%d mutants + %d seeded changes, %d not as expected' % (len(muts), len(seeds), bad))
     sys.exit(1 if bad else 0)
 
 
